@@ -44,6 +44,25 @@ claim("C19",
       "no probe while traffic flowed within the interval or a reply is outstanding (suppression on), every round probed (off).",
       "Trusted: executor + virtual-time model (natively: testing/synctest), z3, the rule transcription. Outside: wall-clock seconds, goroutine management of start/stopLinktest.")
 
+claim("C06",
+      "Bounded symbolic model check of reply correlation in the real core: DeliverOwnedFrame/RouteReply on an inbound frame with a fully symbolic header against two open transactions with arbitrary system bytes (own reply -> exactly its channel, primary -> every handler once in order, unsolicited -> handlers, duplicate discarded, Reject.req -> RejectError with the peer's reason), "
+      "and the real SendDataMessage/SendSECS2Message/WriteMessage over sendWaitReply under virtual time for 9 scripted peer behaviours at write time: the result is exactly one of own secondary / RejectError / T3 (not earlier than T3) / connection-closed / ctx error, never (nil,nil), the key is deregistered on every exit. System-bytes uniqueness for all counter pairs.",
+      "Trusted: executor + cooperative scheduler/virtual time, xsync.MapOf model, model transport, z3. Outside: truly parallel senders and register/route races, real timers.")
+
+claim("C07",
+      "Bounded symbolic model check of the data gate: every data-sending entry point x every FSM state x epoch present/absent x a state flip in the gate-to-write window -> no transport write, ErrNotSelectedState/ErrNotOpen, exactly one drop counted, nothing enqueued or registered; control traffic unaffected; "
+      "inbound (real dispatchFrame): data while NotSelected -> exactly one Reject reason 4 echoing session id/system bytes, not delivered, link up; data pipelined behind Select.req / routed Select.rsp(0) is delivered, never rejected.",
+      "Trusted: executor + models, z3, harness transport/runtime. Outside: write groupings (C04), scheduling of the async drain goroutine; histories are represented by the state they lead to.")
+
+claim("C09",
+      "Bounded symbolic model check of generation binding: after generation 1 ended (3 ways) and generation 2 was published, a stale synchronous writeFrame or the drain loop (every ready-set choice) never reaches the transport with generation 2's socket and queued frames are discarded; "
+      "a W-bit send waiting on generation 1 is not completed by a same-system-bytes reply arriving on generation 2 and ends promptly with the connection-closed error.",
+      "Trusted: executor + cooperative scheduler, z3. Outside: 'every instant' (generation end placed between the listed calls), real sockets, the lifecycle code that creates generations (C10/C11).")
+
+claim("C20",
+      "Bounded symbolic model check of per-operation accounting: for each send outcome (reply, peer reject, T3, disconnect, cancel, refused B1, refused B2, write error, fire-and-forget, forward, control) the delta of every counter equals the documented table, the in-flight gauge returns to its entry value, is never negative, is 0 before the write and 1 while waiting; the async drain counts one send per written frame or one async error per failed write; DeliverOwnedFrame counts one receive per data frame.",
+      "Trusted: executor + models, z3. Outside: equality with a real peer's counts under concurrent histories; quiescence under real scheduling.")
+
 for _p, _r in {
     "C03": "check not yet registered in this session (work in progress, see DESIGN.md §3)",
     "C04": "check not yet registered in this session (work in progress, see DESIGN.md §3)",
